@@ -98,7 +98,7 @@ class Interp:
     def augassign(self, s, env):
         val = self.expr(s.value, env)
         if isinstance(s.target, ast.Name):
-            cur = env[s.target.id]
+            cur = self.expr(s.target, env)      # an unbound target is a NameError of the program, not of the harness
             if isinstance(cur, Cell):
                 pc = CTX.cur()
                 rec = self.env.get("__rec__")
